@@ -1,5 +1,6 @@
 import FtdcVerif.Lemmas.HdrRank
 import FtdcVerif.Lemmas.Window
+import FtdcVerif.Lemmas.HdrMinMax
 /-!
 # C13 — quantiles, merges, windows and snapshots agree with an exact oracle
 
@@ -149,6 +150,56 @@ theorem quantile_within_precision {minV : Int} {maxV s : Nat} (hv : Valid minV m
   refine ⟨hr.2, ?_⟩
   have hhi : highestEquiv (new minV maxV s) x = lowestEquiv (new minV maxV s) x + sizeOfRange (new minV maxV s) x - 1 := rfl
   have hlo : lowestEquiv (new minV maxV s) x ≤ x := hr.1
+  rcases hw with hw | hw
+  · left; omega
+  · right
+    have hs : (new minV maxV s).sigfigs = s := rfl
+    rw [hs] at hw
+    refine Nat.le_trans (Nat.mul_le_mul_right _ ?_) hw
+    omega
+
+/-! ### Min and Max -/
+
+/-- **`Max()` is the representative of the largest recorded value**, and lies within the precision
+bound above it -/
+theorem max_is_representative_of_maximum {minV : Int} {maxV s : Nat} (hv : Valid minV maxV s)
+    (vs : List Int) (h63 : ∀ v ∈ vs, v < 2 ^ 63) (x : Nat)
+    (hx : x ∈ accepted (new minV maxV s) vs) (hmax : ∀ a ∈ accepted (new minV maxV s) vs, a ≤ x) :
+    Hdr.maxV (recordAll (new minV maxV s) vs) = highestEquiv (new minV maxV s) x ∧
+    x ≤ highestEquiv (new minV maxV s) x ∧
+    (highestEquiv (new minV maxV s) x < x + 2 ^ (new minV maxV s).unitMag ∨
+      (highestEquiv (new minV maxV s) x + 1 - x) * 10 ^ s ≤ x) := by
+  have wf := new_wf' hv
+  have hxc := mem_accepted wf h63 hx
+  refine ⟨maxV_is_max wf rfl rfl vs h63 x hx hmax, (value_in_range' wf hxc).2, ?_⟩
+  have hr := value_in_range' wf hxc
+  have hw := width_bound' wf hxc
+  have hpos := size_pos' wf hxc
+  have hhi : highestEquiv (new minV maxV s) x = lowestEquiv (new minV maxV s) x + sizeOfRange (new minV maxV s) x - 1 := rfl
+  rcases hw with hw | hw
+  · left; omega
+  · right
+    have hs : (new minV maxV s).sigfigs = s := rfl
+    rw [hs] at hw
+    refine Nat.le_trans (Nat.mul_le_mul_right _ ?_) hw
+    omega
+
+/-- **`Min()` is the lowest equivalent value of the smallest recorded value**, and lies within the
+precision bound below it -/
+theorem min_is_lowest_equivalent_of_minimum {minV : Int} {maxV s : Nat} (hv : Valid minV maxV s)
+    (vs : List Int) (h63 : ∀ v ∈ vs, v < 2 ^ 63) (x : Nat)
+    (hx : x ∈ accepted (new minV maxV s) vs) (hmin : ∀ a ∈ accepted (new minV maxV s) vs, x ≤ a) :
+    Hdr.minV (recordAll (new minV maxV s) vs) = lowestEquiv (new minV maxV s) x ∧
+    lowestEquiv (new minV maxV s) x ≤ x ∧
+    (x < lowestEquiv (new minV maxV s) x + 2 ^ (new minV maxV s).unitMag ∨
+      (x + 1 - lowestEquiv (new minV maxV s) x) * 10 ^ s ≤ x) := by
+  have wf := new_wf' hv
+  have hxc := mem_accepted wf h63 hx
+  refine ⟨minV_is_min wf rfl rfl vs h63 x hx hmin, (value_in_range' wf hxc).1, ?_⟩
+  have hr := value_in_range' wf hxc
+  have hw := width_bound' wf hxc
+  have hhi : highestEquiv (new minV maxV s) x = lowestEquiv (new minV maxV s) x + sizeOfRange (new minV maxV s) x - 1 := rfl
+  have hpos := size_pos' wf hxc
   rcases hw with hw | hw
   · left; omega
   · right
